@@ -221,6 +221,7 @@ func c17Values(c *ctx, r *rng) error {
 	res := c.res
 	lits := []string{"a", " ", "x y", "é", "\t", "\n", "$", "{", "}", "$ {", "price: $5", "a\tb", "✓", "}}", "\n\t"}
 	codes := []string{"x", "a + b", " x ", "f(1, 2)", "m['k']", "x +\n y", "x +\ty", "`raw`", "`r\nw`", "`a\tb`", "`}`", "`${`", "\"}\"", "\"{\"", "'}'", "'${'", "\"a\\\"}\"",
+		"'C:\\\\'", "\"\\\\\"", "'a\\\\' + 'b'", "'\\\\\\\\'", "'\\\\\\''", "\"a\\\\\" + x", "'\\\\}'", "`\\`", "`a\\` + `}`", "'\\\\' + \"}\"", "'x\\\\\\\\\\''",
 		"f((1))", "x /* c */", "(x)", "`l1\nl2\nl3` + y", "s + `\t`", "\"é✓\"", "a ? b : c", "xs[1:2]"}
 	n := c.n(600, 30000)
 	for i := 0; i < n; i++ {
